@@ -2584,9 +2584,12 @@ def prune_unused_graph_inputs_ir(graph: ir.Graph) -> None:
         if not name:
             return True
         # Preserve positional graph inputs that correspond to original JAX
-        # function arguments (named ``in_<index>`` by IRContext.add_input_for_invar).
+        # function arguments (named ``in_<index>`` by IRContext.add_input_for_invar,
+        # or ``in_<index>_nchw`` when the layout adapter bridges an NCHW input).
         if name.startswith("in_"):
             suffix = name[3:]
+            if suffix.endswith("_nchw"):
+                suffix = suffix[:-5]
             if suffix.isdigit():
                 return True
         return False
